@@ -143,7 +143,11 @@ func init() {
 		}})
 	reg(&opDef{name: "addmany", tag: "C02",
 		gen: func(w *World, r *Rng) (Step, bool) {
-			return Step{S: []int{w.slot(r)}, A: []uint64{uint64(w.key(r)), uint64(r.Intn(numShapes)), uint64(count(r)), r.U64()}}, true
+			shape := r.Intn(numShapes)
+			if shape == 7 && !r.Chance(1, 4) {
+				shape = 0 // many-chunk bitmaps make every later step of the history slow: keep them rare
+			}
+			return Step{S: []int{w.slot(r)}, A: []uint64{uint64(w.key(r)), uint64(shape), uint64(count(r)), r.U64()}}, true
 		},
 		valid: func(w *World, st *Step) bool { return slotsOK(w, st, 1, 4) },
 		exec: func(w *World, st *Step) {
